@@ -450,6 +450,12 @@ class Fn:
             args = tuple(self.apath(a, depth - 1) for a in t["args"])
             if len(args) == 1 and name.endswith(TRANSPARENT):
                 return (args[0][0], args[0][1] + tuple(projs))
+            if name.endswith("Try>::branch") and len(args) == 1 and tuple(projs[:2]) == ("as Continue", "0") and args[0][0][0] == "local" and not args[0][1]:
+                # `x?` where x has several definitions (a helper's return slot put back in place: `Ok(v)` on its success path, the
+                # residuals of its own `?`s on the others): what continues is the payload of the one definition that builds Ok / Some
+                v = self._success_payload(args[0][0][1], depth - 1)
+                if v is not None:
+                    return self._select(v, projs[2:])
             return (("call", name, args, d[1]), tuple(projs))
         rv = d[3]
         k = rv["k"]
@@ -473,6 +479,35 @@ class Fn:
         if k == "discr":
             return (("discr", self.apath_place(rv["place"], depth - 1)), tuple(projs))
         return (("rv", k, d[1], d[2]), tuple(projs))
+
+    def _success_payload(self, l, depth):
+        """Local l is defined several times: exactly once as `Ok{v}` / `Some{v}` (possibly through moves), otherwise only as
+        failures (`Err{..}`, `None`, from_residual(..)).  Returns the access path of v, else None."""
+        seen, work, succ = set(), [l], []
+        while work:
+            x = work.pop()
+            if x in seen:
+                continue
+            seen.add(x)
+            for d in self.defs().get(x, []):
+                if d[0] == "call":
+                    nm = callee_name(d[2]["callee"]) if "callee" in d[2] else ""
+                    if nm.endswith(("FromResidual<core::result::Result<core::convert::Infallible, E>>>::from_residual",
+                                    "FromResidual<core::option::Option<core::convert::Infallible>>>::from_residual", "::from_residual")):
+                        continue
+                    return None
+                rv = d[3]
+                if rv["k"] == "use" and place_of(rv["a"]) and not place_of(rv["a"])["p"]:
+                    work.append(place_of(rv["a"])["l"])
+                elif rv["k"] == "agg" and rv.get("variant") in ("Ok", "Some") and len(rv["ops"]) == 1:
+                    succ.append(rv["ops"][0])
+                elif rv["k"] == "agg" and rv.get("variant") in ("Err", "None"):
+                    continue
+                else:
+                    return None
+        if len(succ) != 1:
+            return None
+        return self.apath(succ[0], depth)
 
     @staticmethod
     def _select(base, projs):
